@@ -3278,7 +3278,7 @@ fn fix_type_for_flags(
 {
 	if flags.contains(DeclarationFlag::External)
 	{
-		match value_type
+		let externalized_type = match value_type
 		{
 			ValueType::Arraylike { element_type } =>
 			{
@@ -3287,17 +3287,30 @@ fn fix_type_for_flags(
 					location_of_type,
 					location_of_declaration,
 				)?;
-				Ok(ValueType::View {
+				ValueType::View {
 					deref_type: Box::new(ValueType::EndlessArray {
 						element_type: Box::new(element_type),
 					}),
-				})
+				}
 			}
 			_ => externalize_type(
 				value_type,
 				location_of_type,
 				location_of_declaration,
-			),
+			)?,
+		};
+		// Externalizing can turn a wellformed type into an illegal one,
+		// such as an endless array of endless arrays.
+		if externalized_type.is_wellformed()
+		{
+			Ok(externalized_type)
+		}
+		else
+		{
+			Err(Error::IllegalType {
+				value_type: externalized_type,
+				location: location_of_type.clone(),
+			})
 		}
 	}
 	else
